@@ -14,7 +14,7 @@ EXPLANATION = (
     'Poll::Pending first keeps the waker (clone stored or sent, AtomicWaker::register) or comes from the Pending edge of a delegated '
     'poll with the same context (one tabled exception: the command ShellRequest whose channel closed is deliberately unwakeable); '
     'R05.d the legacy futures check their slot and store the waker under one lock that the resolve closure also holds; R05.e a legacy '
-    'resolution is followed on every path by taking and waking the stored waker. Output equivalence across hosts is not decided. R05.f no hosting function drops an output it has pulled from a hosted command (the linear rule of C01 restricted to the hosts). R05.g both executor loops run to quiescence (shared with C01). R05.h over the serialized bridge a response resumes exactly the request issued under its id: lookup, resolution and removal of the registry entry use that id inside one lock region (shared with C09 / C08). R05.i every run of the executor in Core::process is followed by a look at the event channel (shared with C03 R03.f).')
+    'resolution is followed on every path by taking and waking the stored waker. Output equivalence across hosts is not decided. R05.f no hosting function drops an output it has pulled from a hosted command (the linear rule of C01 restricted to the hosts). R05.g both executor loops run to quiescence (shared with C01). R05.h over the serialized bridge a response resumes exactly the request issued under its id: lookup, resolution and removal of the registry entry use that id inside one lock region (shared with C09 / C08). R05.i every run of the executor in Core::process is followed by a look at the event channel (shared with C03 R03.f). R05.j a combinator returns a fresh host, never an operand (shared with C06 R06.g; C06-F2\'s exact key is not repeated).')
 
 POLL_NAMES = ('poll', 'poll_next', 'poll_unpin', 'poll_next_unpin', 'try_poll', 'try_poll_next', 'poll_fill_buf', 'poll_read',
               'poll_ready', 'poll_flush', 'poll_close')
@@ -133,6 +133,12 @@ def check(ctx, rep):
     # inspected directly: every run of the executor in Core::process is followed by a look at the event channel (shared with C03 R03.f /
     # C01 R01.a; seeded: the run_all inside the event loop moved after the loop, so a two-hop event chain arrives one call late)
     c03.check_process_looks(rep, 'R05.i', core)
+    # R05.j: a command hosted by a combinator produces what it produces on its own whatever happens to its neighbours: the combinator
+    # returns a fresh host, never one of the operands (whose abort flag — shared with every handle taken from it earlier — would then
+    # govern the others). Shared with C06 R06.g; the deliberate left-operand hosting of `and` is finding C06-F2 of its own property and is
+    # not repeated here (exact key). Seeded (three times by now, independently): Command::all using its first member as the base.
+    from rules.props import c06 as _c06f, c10 as _c10p
+    _c06f.check_fresh_host(_c10p.RuleProxy(rep, 'R05.j', lambda key: key != 'Command::and|returns-operand'), core, rid='R05.j')
     # R05.h: driven through the serialized bridge, a response reaches the same request as under the typed core: resume() looks the entry up
     # under the id it was given, resolves exactly that entry and removes it only when it can no longer be resolved, all inside one region of
     # the registry lock (an entry taken out while it is resolved lets another thread's new effect be announced under the same id), and ids
